@@ -21,7 +21,8 @@ PID = "C07"
 TITLE = "Nested-dictionary algebra: intersection, difference and recursive update"
 LEAN_MODULES = ["LenaModel.Props.C07"]
 LEAN_SOURCES = ["LenaModel/Model/Val.lean", "LenaModel/Model/C07.lean", "LenaModel/Lemmas/C07.lean",
-                "LenaModel/Lemmas/C07Update.lean", "LenaModel/Lemmas/C07Nested.lean", "LenaModel/Props/C07.lean"]
+                "LenaModel/Lemmas/C07Update.lean", "LenaModel/Lemmas/C07Nested.lean", "LenaModel/Lemmas/C07Level.lean",
+                "LenaModel/Props/C07.lean"]
 DRIVER = "drivers/C07.lean"
 THEOREMS = [
     # containment (the order the statement speaks about)
@@ -58,6 +59,14 @@ THEOREMS = [
     # reconstruction
     "Lena.C07.reconstruct",
     "Lena.C07.reconstruct_call",
+    "Lena.C07.reconstruct_from_part",
+    "Lena.C07.reconstruct_nary",
+    # levels
+    "Lena.C07.cont_level_unlimited",
+    "Lena.C07.inter_level_le_unlimited",
+    "Lena.C07.level_covers_inter",
+    "Lena.C07.level_covers_diff",
+    "Lena.C07.level_covers_cont",
     # update_recursively
     "Lena.C07.update_contains",
     "Lena.C07.update_keeps",
@@ -453,6 +462,18 @@ def run_impl(case):
                 if "e" in acc:
                     break
             out["fold"] = acc
+        if "r" in out["all"] and n >= 1:
+            # every argument is the intersection updated with its own difference (Zip._create_context, group_plots)
+            recs = []
+            for d in ds:
+                dd = _call(lc.difference, d, out["all"]["r"], level=lv)
+                if "e" in dd:
+                    recs.append(dd)
+                    continue
+                rec = copy.deepcopy(out["all"]["r"])
+                u = _call(lc.update_recursively, rec, copy.deepcopy(dd["r"]))
+                recs.append({"r": rec} if "r" in u else u)
+            out["recs"] = recs
         out["changed"] = _snap(ds) != s0
         return out
     if op == "nested":
@@ -579,7 +600,7 @@ def model_requests(case):
         return reqs
     if op == "multi":
         ds = [e.val(d) for d in case["ds"]]
-        reqs = [{"op": "inter", "n": n, "level": case["level"], "ds": ds}]
+        reqs = [{"op": "inter", "n": n, "level": case["level"], "ds": ds, "falsy": e.falsy()}]
         if len(ds) == 3:
             reqs.append({"op": "assoc", "n": n, "level": case["level"], "a": ds[0], "b": ds[1], "c": ds[2]})
         return reqs
@@ -587,7 +608,7 @@ def model_requests(case):
         return [{"op": "nested", "k": e.keys.index(case["key"]), "d": e.val(case["d"]), "other": e.val(case["other"])}]
     if op == "bad":
         vals = [e.val(v) for v in case["vals"]]
-        reqs = [{"op": "inter", "n": n, "level": case["level"], "ds": vals}]
+        reqs = [{"op": "inter", "n": n, "level": case["level"], "ds": vals, "falsy": e.falsy()}]
         if len(vals) >= 2:
             reqs.append({"op": "diffv", "level": case["level"], "a": vals[0], "b": vals[1], "falsy": e.falsy()})
             if not isinstance(case["vals"][1], str):
@@ -631,6 +652,14 @@ def compare(case, res, replies):
                     return f"level {lv}: Lean `contained` gives {ml[name]} for {name}, the Python reference {ref[name]}"
             if not (ml["ciab_a"] and ml["ciab_b"]):
                 return f"level {lv}: the model's intersection is not contained in an argument (Lean `contained`): {ml}"
+        da = max([_depth(v) for v in a.values()] + [0])
+        if m["da"] != da:
+            return f"Lean depthL gives {m['da']}, the Python reference {da}"
+        if -1 in case["levels"]:
+            unl = m["r"][case["levels"].index(-1)]
+            for lv, ml in zip(case["levels"], m["r"]):
+                if lv > da and any(ml[k] != unl[k] for k in ("iab", "dab", "cab")):
+                    return f"model: level {lv} exceeds the depth {da} of d1's items but differs from level -1: {ml} vs {unl}"
         if _obs(e, res["upd"]) != {"r": m["upd"]}:
             return f"update_recursively: impl {_obs(e, res['upd'])} vs model {m['upd']}"
         # the specification vocabulary for paths: Lean untouchedL / getPath against the Python reference
@@ -647,8 +676,12 @@ def compare(case, res, replies):
         return None
     if op == "multi":
         got = _obs(e, res["all"])
-        if got != replies[0]:
-            return f"intersection(*ds, level={case['level']}): impl {got} vs model {replies[0]}"
+        m0 = {k: v for k, v in replies[0].items() if k != "recs"}
+        if got != m0:
+            return f"intersection(*ds, level={case['level']}): impl {got} vs model {m0}"
+        if "recs" in res and [_obs(e, r) for r in res["recs"]] != [{"r": x} for x in replies[0].get("recs", [])]:
+            return (f"reconstruction of the arguments: impl {[_obs(e, r) for r in res['recs']]} vs model "
+                    f"{replies[0].get('recs')}")
         if len(case["ds"]) == 3:
             m = replies[1]
             for name in ("ab_c", "a_bc"):
@@ -676,6 +709,7 @@ def compare(case, res, replies):
     if op == "bad":
         names = ["inter", "diff", "upd"]
         for name, m in zip(names, replies):
+            m = {k: v for k, v in m.items() if k != "recs"}
             got = _obs(e, res.get(name))
             if got != m:
                 return f"{name}: impl {got} vs model {m}"
@@ -826,6 +860,12 @@ def _oracle(case, res):
                 if res[name]["r"] != r:
                     return (f"intersection is not associative at level {lv}: intersection(*{ds}) = {r}, "
                             f"{name} = {res[name]['r']}")
+        for d, rec in zip(ds, res.get("recs", [])):
+            if "e" in rec:
+                return f"difference/update_recursively raised {rec['e']} for d1={d}, d2=intersection(*{ds}, level={lv})={r}"
+            if rec["r"] != d:
+                return (f"level {lv}: updating the intersection {r} of {ds} with the difference of the argument {d} "
+                        f"gives {rec['r']}, not that argument")
         for i, pr in enumerate(res.get("perms", [])):
             if "e" in pr or pr["r"] != r:
                 return f"intersection is not commutative at level {lv}: {ds} -> {r}, permutation #{i} -> {pr}"
